@@ -5,6 +5,7 @@ import (
 	"go/types"
 	"sort"
 	"strings"
+	"time"
 
 	"symgo/smt"
 )
@@ -205,7 +206,11 @@ func (r *Run) assumeRaw(c *smt.Term) {
 
 func (r *Run) check(vars []*smt.Term, extra ...*smt.Term) (smt.Result, map[string]uint64) {
 	r.res.NewQueries++
+	t0 := time.Now()
 	res, m := r.S.Check(vars, extra...)
+	if d := time.Since(t0); r.E.Cfg.RecordQueries && d > r.E.Cfg.SlowQuery && r.E.Cfg.SlowQuery > 0 {
+		r.E.dumpSlow(r.S.Script(extra...), d, res.String())
+	}
 	if r.S.Dirty {
 		panic(abort{abInconclusive, "solver restarted: " + r.S.LastError})
 	}
